@@ -51,7 +51,10 @@ CHECKS = {
               "ConcatSignal, complex modules, LinSolve dense/sparse/complex/multi-rhs/CG, Inverse, SystemOfEquations, "
               "StaticCondensation, EigenSolve dense/sparse, aggregations, Scaling): after every step the input "
               "sensitivities must equal alpha*g1+beta*g2 with TLC's coefficients (g1, g2 measured on another fresh "
-              "instance) and all states must be bit-identical where the specification says they are untouched."),
+              "instance) and all states must be bit-identical where the specification says they are untouched. Loop-shaped "
+              "histories (SpecS: one response, then seed / sensitivity / reset cycles with changing seeds) reach three cycles; "
+              "real-typed seeds on complex outputs, and input signals realised with an allocated sensitivity or as SignalSlice "
+              "views, are replayed as further realisations of the same behaviours."),
         note=(TLC_BASE + "; modules are deterministic for fixed inputs; per-module tolerance 1e-9 (1e-6..1e-8 where a "
               "LAPACK/ARPACK/CG solve is involved); MathGeneral and AutoMod cannot be executed (sympy/jax absent)"),
         technique="TLA+ protocol machine checked by TLC; replay of all emitted histories on every library module configuration",
@@ -85,7 +88,9 @@ CHECKS = {
               "StaticCondensation, dense and sparse EigenSolve with eigenvector seeds, OverhangFilter, aggregation with "
               "undamped scaling and active set); wherever the specification says states are valid / sensitivities are "
               "clean, all signal states and sensitivities are compared with a freshly built identical network evaluated "
-              "once; Reset must leave nothing, Sens without seed must change nothing."),
+              "once; Reset must leave nothing, Sens without seed must change nothing. Every library-module configuration of "
+              "harness/modtable.py (except the documented memory Scaling) is additionally run as a one-module network whose inputs "
+              "all change with the design index, on sampled histories with a clean cycle after earlier activity."),
         note=(TLC_BASE + "; the matrix class is constant per template; tolerances 1e-8..1e-9 (direct) and 1e-5..1e-6 "
               "(CG / ARPACK); documented memories (Scaling, damped AggScaling, writer counters) excluded"),
         technique="TLA+ version/taint model checked by TLC; replay of emitted call histories against a freshly built network",
@@ -204,7 +209,11 @@ CHECKS = {
               "must return adj b / det with the shape of b for modes N/T/H and right-hand sides (n), (n,1), (n,3) with "
               "dependent columns, real and complex; the auto choice itself is compared with the transcription. [O] CG with "
               "GeometricMultigrid (V and W) and with an initial guess on 2D/3D Poisson and elasticity matrices is decided by "
-              "the residual of the requested system."),
+              "the residual of the requested system. SolverLife.tla models one solver object over histories of update(A_i) / solve "
+              "with the state each solver caches (own factor; Cholesky success flag and LDL back-up; detected LDL kind): TLC checks "
+              "that every solve reads a factor of the matrix given last, of a kind valid for it, refutes the stale-flag variants, "
+              "and every call sequence to depth 4/5 on three matrix pools x 13 solver configurations is replayed on one real "
+              "solver object, each solve compared with the exact solution for the current matrix."),
         note=(TLC_BASE + "; a complex right-hand side for a real sparse matrix is outside the admissible inputs of the "
               "SuperLU-based components; optional back-ends (Pardiso, CHOLMOD, CVXOPT) are absent; growth of the condition "
               "number and single precision are not decided; multigrid convergence is an observation predicate"),
@@ -249,7 +258,8 @@ CHECKS = {
               "zeros skipped) and Verdict (right adjoints are reported with exactly matching pairs on affine networks, wrong "
               "ones are not). Every case is run through pymoto.finite_difference with a recording test_fn: the complete "
               "callback sequence (analytical and numerical values, dx) and the final states and sensitivities are compared "
-              "with TLC's exact rationals."),
+              "with TLC's exact rationals, with the source signals realised as plain Signals, as Signals that own an allocated "
+              "sensitivity, and as SignalSlice views."),
         note=(TLC_BASE + "; fromsig / tosig are given explicitly; perturbing a sparse-matrix input is outside the admissible "
               "inputs; dyadic dx and integer data make difference quotients exact"),
         technique="TLA+ transcription of the finite-difference procedure checked by TLC; replay with a recording callback",
